@@ -212,6 +212,12 @@ def _main(a, prop, tier, seed, t0):
                 violations.append({"obligation": v.get("clause", "bounded"), "contract": "bounded", "target": v.get("target", ""),
                                    "what": v["what"], "input": v.get("input"), "replayed": True, "key": v.get("key")})
 
+    # ------------------------------------------------------------------ thorough: engine self-test (numpy axioms + mutants on scratch copies)
+    if tier == "thorough" and a.repo == "/repo":
+        from vlib import selftest
+        if selftest.main(a) != 0:
+            crashes.append("engine self-test failed (a deliberately broken body was not detected or a NumPy axiom mismatched)")
+
     # ------------------------------------------------------------------ replay counter-models of failed obligations
     from vlib import replay as rp
     out_violations = []
